@@ -104,6 +104,8 @@ pub struct Replica {
     pub clean_digest: Option<Value>,
     /// (array uuid, revision) -> submitted order (C16 user model)
     pub array_orders: BTreeMap<(String, String), Vec<String>>,
+    /// array uuid -> order submitted last (successive pairs for the edit-script contract)
+    pub last_orders: BTreeMap<String, Vec<String>>,
     pub commits: u64,
     pub failed_commit_pending: bool,
 }
@@ -195,6 +197,7 @@ impl World {
                 checkpoints: vec![],
                 clean_digest: None,
                 array_orders: BTreeMap::new(),
+                last_orders: BTreeMap::new(),
                 commits: 0,
                 failed_commit_pending: false,
             });
@@ -281,6 +284,14 @@ impl World {
 
     // ------------------------------------------------------------------ execution
 
+    /// Bookkeeping of an op whose effect already took place (a read the generator performed).
+    pub fn account(&mut self, op: &Op) {
+        self.step += 1;
+        crate::sched::note_step(self.step);
+        self.trace_hash = (self.trace_hash ^ crate::rng::fnv64(op.to_json().to_string().as_bytes())).wrapping_mul(0x100000001b3);
+        self.bump(&format!("op.{}", op.name()));
+    }
+
     pub fn exec(&mut self, op: &Op) -> Res {
         self.step += 1;
         crate::sched::note_step(self.step);
@@ -341,7 +352,71 @@ impl World {
             }
             Op::Read { r } => self.op_read(*r),
             Op::Converge { commit } => self.op_converge(*commit),
+            Op::SameEdit { a, b, doc } => self.op_same_edit(*a, *b, doc),
         }
+    }
+
+    // ---------------------------------------------------------------- same edit on two replicas (C19)
+
+    fn op_same_edit(&mut self, a: usize, b: usize, doc: &Value) -> Res {
+        if a == b || b >= self.replicas.len() || self.partitioned(a, b) {
+            return Ok(());
+        }
+        // bring both to the same version
+        for r in [a, b] {
+            if self.replicas[r].time_travel {
+                self.op_refresh(r, 1)?;
+            }
+            let staging = { let m = self.live(r); self.call("has_staging", || m.has_staging())? };
+            if staging {
+                self.op_commit(r, &None)?;
+            }
+        }
+        for _ in 0..2 {
+            self.op_meld(a, b)?;
+            self.op_refresh(a, 0)?;
+            self.op_meld(b, a)?;
+            self.op_refresh(b, 0)?;
+        }
+        let (da, db) = (self.digest_of(a)?, self.digest_of(b)?);
+        if da != db {
+            // not the same version (e.g. items still in flight elsewhere): nothing to say
+            return Ok(());
+        }
+        let conf_before: BTreeSet<String> = da["in_conflict"].as_array().unwrap().iter().map(|x| x.as_str().unwrap().to_string()).collect();
+        if !conf_before.is_empty() {
+            // an array in conflict makes the submitted edit scripts depend on the merge; keep to the clean case
+            return Ok(());
+        }
+        self.op_update(a, doc, false)?;
+        self.op_update(b, doc, false)?;
+        let (sa, sb) = (self.digest_of(a)?, self.digest_of(b)?);
+        if self.is(&["C19"]) && sa["winners"] != sb["winners"] {
+            viol!(self, "same-edit-same-revision", "same-edit-different-revisions", "two replicas at the same version submitted the same document but obtained different revisions: {}", diff_digest(&sa, &sb));
+        }
+        self.op_commit(a, &Some(json!({"who": "a", "n": 1})))?;
+        self.op_commit(b, &Some(json!({"who": "b", "n": [2, 3]})))?;
+        for _ in 0..2 {
+            self.op_meld(a, b)?;
+            self.op_refresh(a, 0)?;
+            self.op_meld(b, a)?;
+            self.op_refresh(b, 0)?;
+        }
+        let (ea, eb) = (self.digest_of(a)?, self.digest_of(b)?);
+        self.bump("probe.same_edit");
+        if self.is(&["C19", "C01"]) {
+            if ea != eb {
+                viol!(self, "same-edit-converges", "same-edit-diverged", "after the same edit on both and a full exchange the replicas differ: {}", diff_digest(&ea, &eb));
+            }
+            let conf_after = ea["in_conflict"].as_array().unwrap();
+            if !conf_after.is_empty() {
+                viol!(self, "same-edit-no-conflict", "same-edit-conflict", "the same edit made independently on the same version produced conflicts on {:?}", conf_after);
+            }
+            if ea["heads"].as_array().map_or(0, |h| h.len()) == 2 {
+                self.bump("probe.same_edit_two_heads");
+            }
+        }
+        Ok(())
     }
 
     // ---------------------------------------------------------------- convergence (C01 liveness)
@@ -560,6 +635,11 @@ impl World {
         let winners: Vec<(String, Vec<String>, Option<String>)> = self.call("get_winner", || found.into_iter().map(|(u, ids)| { let w = m.get_winner(&u).ok(); (u, ids, w) }).collect())?;
         let arr_conf = self.array_in_conflict(r)?;
         for (u, ids, w) in winners {
+            // hook 1: the edit script between every successive pair reconstructs the new version
+            if let Some(old) = self.replicas[r].last_orders.get(&u).cloned() {
+                crate::treecheck::diff_patch_contract(self, &u, &old, &ids)?;
+            }
+            self.replicas[r].last_orders.insert(u.clone(), ids.clone());
             if let Some(w) = w {
                 if !arr_conf {
                     self.replicas[r].array_orders.insert((u, w), ids);
@@ -1660,6 +1740,9 @@ impl World {
             let wo = &orders.iter().find(|(l, _)| *l == w).unwrap().1;
             if let Some((a, b)) = keeps_order(wo) {
                 viol!(self, "winner-order", "merge-winner-order", "{}: replica {}: array {} reads {:?}; the winning version {:?} has {} before {}", when, r, uuid, got, wo, a, b);
+            }
+            if orders.len() == 2 {
+                crate::treecheck::merge_pair_contract(self, &uuid, &orders[0].1, &orders[1].1)?;
             }
             // (4) two versions that agree on their common elements are both preserved
             if orders.len() == 2 {
